@@ -268,20 +268,34 @@ Lemma good_loop cd c tag n :
   forallb (fresh_good cd c) (repeat_ops n (dill_write cd (Full (Gen tag)) ++ update_ops c tag)) = true.
 Proof. apply forallb_repeat_ops. rewrite forallb_app, good_dill_write, good_update. reflexivity. Qed.
 
-Lemma good_fit cd c tag s : forallb (fresh_good cd c) (fst (fst (fst (fit_ops cd c tag s)))) = true.
+Lemma good_search cd c tag s : forallb (fresh_good cd c) (fst (fst (fst (search_ops cd c tag s)))) = true.
 Proof.
-  unfold fit_ops. destruct (c_search c); [apply good_dill_write|].
+  unfold search_ops. destruct (c_search c); [apply good_dill_write|].
   destruct (fd s Dill) as [|[|]|[|g|]]; try apply good_loop; try reflexivity.
   destruct (fx_resume cd); [|reflexivity]. destruct (c_updates c) as [|[|n]]; try reflexivity. apply good_loop.
 Qed.
 
+Lemma good_fit cd c tag s : forallb (fresh_good cd c) (fst (fst (fst (fit_ops cd c tag s)))) = true.
+Proof.
+  unfold fit_ops. destruct (chk_ops cd c s) as [[e|] ev]; [reflexivity|].
+  pose proof (good_search cd c tag s) as G. destruct (search_ops cd c tag s) as [[[f fo] sm] internal]. exact G.
+Qed.
+
 (* a Drawer fit leaves the search state it has just written *)
+Lemma search_no_internal cd c tag s f g sm :
+  search_ops cd c tag s = (f, inr g, sm, false) -> f = dill_write cd (Full (Gen g)).
+Proof.
+  unfold search_ops. destruct (c_search c); [intro H; inversion H; reflexivity|].
+  destruct (fd s Dill) as [|[|]|[|g'|]]; try (intro H; inversion H; fail).
+  destruct (fx_resume cd); [|intro H; inversion H]. destruct (c_updates c) as [|[|n]]; intro H; inversion H.
+Qed.
+
 Lemma fit_no_internal cd c tag s f g sm :
   fit_ops cd c tag s = (f, inr g, sm, false) -> f = dill_write cd (Full (Gen g)).
 Proof.
-  unfold fit_ops. destruct (c_search c); [intro H; inversion H; reflexivity|].
-  destruct (fd s Dill) as [|[|]|[|g'|]]; try (intro H; inversion H; fail).
-  destruct (fx_resume cd); [|intro H; inversion H]. destruct (c_updates c) as [|[|n]]; intro H; inversion H.
+  unfold fit_ops. destruct (chk_ops cd c s) as [[e|] ev]; [intro H; inversion H|].
+  destruct (search_ops cd c tag s) as [[[f' fo] sm'] internal] eqn:E. intro H. inversion H; subst.
+  eapply search_no_internal. exact E.
 Qed.
 
 Lemma update_marker_complete c g s :
@@ -550,10 +564,16 @@ Definition recoverable (cd : code) (c : cfg) (s : fs) : Prop :=
         | Absent | Full NoneObj | Full Plain => True
         | Full (Gen _) => fx_resume cd = true
         | Part _ => False
+        end) /\
+     (c_chk c = true -> fx_chk cd = false ->
+        match eff_dir s Summary with
+        | Part _ => False
+        | Full (Gen _) => c_search c = Drawer
+        | _ => True
         end)).
 
-Lemma save_all_keeps s r : (r = StartTime \/ r = Time \/ r = Dill) -> fd (exec save_all_ops s) r = fd s r.
-Proof. intros [->|[->| ->]]; reflexivity. Qed.
+Lemma save_all_keeps s r : (r = StartTime \/ r = Time \/ r = Dill \/ r = Summary) -> fd (exec save_all_ops s) r = fd s r.
+Proof. intros [->|[->|[->| ->]]]; reflexivity. Qed.
 
 Lemma fresh_resume cd c tag h s :
   freshJ cd c s ->
@@ -565,9 +585,16 @@ Lemma fresh_resume cd c tag h s :
      | Full (Gen _) => fx_resume cd = true
      | Part _ => False
      end) ->
+  (c_chk c = true -> fx_chk cd = false ->
+     match fd s Summary with
+     | Part _ => False
+     | Full (Gen _) => c_search c = Drawer
+     | _ => True
+     end) ->
   exists r, plan_out cd c tag h s = inr r /\ stored c (r_tag r) (run_full cd c tag h s).
 Proof.
-  intros HJ H1 H2 H3. set (s2 := exec save_all_ops s).
+  intros HJ H1 H2 H3 H4. set (s2 := exec save_all_ops s).
+  assert (E4 : fd s2 Summary = fd s Summary) by (apply save_all_keeps; auto).
   assert (E1 : fd s2 StartTime = fd s StartTime) by (apply save_all_keeps; auto).
   assert (E2 : fd s2 Time = fd s Time) by (apply save_all_keeps; auto).
   assert (E3 : fd s2 Dill = fd s Dill) by (apply save_all_keeps; auto).
@@ -576,9 +603,18 @@ Proof.
     destruct (fx_timer cd) eqn:F; [eexists; reflexivity|]. exfalso. apply (H1 eq_refl). reflexivity. }
   destruct Ht as [t Ht].
   assert (Hf : exists f g sm internal, fit_ops cd c tag s2 = (f, inr g, sm, internal)).
-  { unfold fit_ops. rewrite E3. destruct (c_search c) eqn:S; [do 4 eexists; reflexivity|].
-    specialize (H3 eq_refl). destruct (fd s Dill) as [|p|[|g|]]; try contradiction; try (do 4 eexists; reflexivity).
-    rewrite H3. destruct (c_updates c) as [|[|n]]; do 4 eexists; reflexivity. }
+  { assert (Hs : exists f g sm internal, search_ops cd c tag s2 = (f, inr g, sm, internal)).
+    { unfold search_ops. rewrite E3. destruct (c_search c) eqn:S; [do 4 eexists; reflexivity|].
+      specialize (H3 eq_refl). destruct (fd s Dill) as [|p|[|g|]]; try contradiction; try (do 4 eexists; reflexivity).
+      rewrite H3. destruct (c_updates c) as [|[|n]]; do 4 eexists; reflexivity. }
+    destruct Hs as [f [g [sm [internal Hs]]]].
+    assert (Hk : exists ev, chk_ops cd c s2 = (None, ev)).
+    { unfold chk_ops. rewrite E4. destruct (c_chk c) eqn:K; [|eexists; reflexivity].
+      destruct (fx_chk cd) eqn:F.
+      - destruct (fd s Summary) as [|p|[|g'|]]; try (eexists; reflexivity). destruct (c_search c); eexists; reflexivity.
+      - specialize (H4 eq_refl eq_refl). destruct (fd s Summary) as [|p|[|g'|]]; try contradiction; try (eexists; reflexivity).
+        rewrite H4. eexists; reflexivity. }
+    destruct Hk as [ev Hk]. unfold fit_ops. rewrite Hk, Hs. do 4 eexists; reflexivity. }
   destruct Hf as [f [g [sm [internal Hf]]]].
   assert (Hb : drawer_time_bad cd c s2 = false).
   { unfold drawer_time_bad. rewrite E2. destruct (c_search c) eqn:S; [|reflexivity].
@@ -608,7 +644,7 @@ Proof.
   intros HI [Hz [R1 R2]]. unfold Inv in HI. unfold eff_dir in R1, R2.
   destruct (fz s) as [| |snap] eqn:Z.
   - destruct HI as [[[M|M] Hcsv] [Hm Hd]].
-    + destruct (R2 M) as [A [B C]]. apply fresh_resume; try assumption.
+    + destruct (R2 M) as [A [B [C D]]]. apply fresh_resume; try assumption.
       split; [exact Z|]. split; [exact M|]. split; [split; [left; exact M | exact Hcsv] | exact Hd].
     + destruct (Hm M) as [g Hc].
       destruct (complete_once cd c tag h s g) as [A [_ B]].
@@ -629,11 +665,11 @@ Proof.
   intro HI. unfold Inv in HI. unfold recoverable, eff_dir. simpl.
   destruct (fz s) as [| |snap] eqn:Z.
   - destruct HI as [_ [_ Hd]]. split; [discriminate|]. split; [intros _; apply Hd; reflexivity|].
-    intros _. split; [discriminate|]. split; [discriminate|].
+    intros _. split; [discriminate|]. split; [discriminate|]. split; [|discriminate].
     intros _. specialize (Hd eq_refl). destruct (fd s Dill) as [|p|[|g|]]; simpl in Hd; try contradiction; auto.
   - destruct HI as [_ F]. discriminate F.
   - destruct HI as [_ [_ [_ Hd]]]. split; [discriminate|]. split; [intros _; apply Hd; reflexivity|].
-    intros _. split; [discriminate|]. split; [discriminate|].
+    intros _. split; [discriminate|]. split; [discriminate|]. split; [|discriminate].
     intros _. specialize (Hd eq_refl). destruct (snap Dill) as [|p|[|g|]]; simpl in Hd; try contradiction; auto.
 Qed.
 
